@@ -27,7 +27,7 @@ PROPS = {
     "C11": dict(modules=[], ties=[], streams=["score"]),
     "C12": dict(modules=[], ties=[], streams=["score"]),
     "C13": dict(modules=[], ties=["Cvss.Model.SrcTie"], streams=["parse"]),
-    "C14": dict(modules=[], ties=["Cvss.Model.SrcTie"], streams=["race"]),
+    "C14": dict(modules=[], ties=["Cvss.Model.SrcTie"], streams=["race", "obj"]),
     "C15": dict(modules=["Cvss.Props.C15"], ties=[], streams=["rating"]),
     "C16": dict(modules=[], ties=[], streams=["obj"]),
     "C17": dict(modules=[], ties=[], streams=["obj", "alloc"]),
@@ -47,7 +47,7 @@ _NOTE = ("testing level: reach bounded by the generators (edit neighbourhoods of
          "oracle = executable Lean Spec (lean/Cvss/Spec), model validated against the code on every run")
 LEVEL_TEXT = {
     pid: _lt("exploration", _PENDING, _NOTE, "differential testing of the implementation against an executable Lean Spec and model (proofs pending)")
-    for pid in ["C01", "C02", "C06", "C07", "C08", "C09", "C13", "C16", "C17", "C18"]
+    for pid in ["C01", "C02", "C06", "C07", "C08", "C09", "C13", "C14", "C16", "C17", "C18"]
 }
 LEVEL_TEXT["C15"] = _lt(
     "proof",
@@ -58,5 +58,5 @@ LEVEL_TEXT["C15"] = _lt(
     "trusted: Lean kernel; translator for Rating (validated by the rating stream: 7k/600k bit patterns incl. every threshold and its float neighbours, compared "
     "with the real functions); F64.lt/F64.le formalisation (proved equal to the exact order, so only the IEEE decoding in Spec/Rating.lean is trusted)",
     "Lean 4 proof over all float64 (structural, omega) on the regenerated model + differential validation of the translation")
-for pid in ["C03", "C04", "C05", "C10", "C11", "C12", "C14"]:
+for pid in ["C03", "C04", "C05", "C10", "C11", "C12"]:
     NOT_CLAIMED[pid] = "check under construction (Spec and theorems for this property are not merged yet); see DESIGN.md section 7"
